@@ -51,7 +51,7 @@ Ltac pe_join M a b :=
   destruct (period M b) as [[?yo ?yp]|] eqn:Eb; cbn [of_opt sbind per_join]; [|reflexivity];
   apply period_pos in Ea; apply period_pos in Eb;
   rewrite src_lcm2_eq by lia; unfold sbind1; cbn [sbind];
-  match goal with |- context [?p >=? M] => destruct (p >=? M) end; reflexivity.
+  zb.
 
 Ltac pe_join_goal M a :=
   match goal with |- _ = of_opt (per_join M (period M a) (period M ?b')) => pe_join M a b' end.
@@ -107,7 +107,7 @@ Proof.
   destruct (period M b) as [[yo yp]|] eqn:Eb; cbn [of_opt sbind]; [|reflexivity].
   apply period_pos in Ec; apply period_pos in Ea; apply period_pos in Eb.
   rewrite src_lcm3_eq by lia. unfold sbind1; cbn [sbind].
-  destruct (py_lcm (py_lcm tp xp) yp >=? M); reflexivity.
+  zb.
 Qed.
 
 Lemma src_pe_num_eq M z : src_pe_num M z = of_opt (period M (Num z)).
